@@ -239,7 +239,7 @@ void ezc3d::ParametersNS::Parameters::write(std::fstream &f) const
     f.write(reinterpret_cast<const char*>(&processorType), ezc3d::BYTE);
 
     // Write each groups
-    std::streampos dataStartPosition; // Special parameter in POINT group
+    std::streampos dataStartPosition(-1); // Special parameter in POINT group (-1 until a DATA_START parameter is written)
     for (size_t i=0; i < nbGroups(); ++i)
         if (group(i).name().size() > 0) // unused group ids leave nameless placeholders, a nameless record would end the section
             group(i).write(f, -static_cast<int>(i+1), dataStartPosition);
@@ -262,6 +262,8 @@ void ezc3d::ParametersNS::Parameters::write(std::fstream &f) const
 
     // Go back to data start blank space and write the actual position
     actualPos = f.tellg();
+    if (dataStartPosition == std::streampos(-1))
+        return; // a loaded file may have no POINT:DATA_START parameter: there is nothing to patch
     f.seekg(dataStartPosition);
     nBlocksToNext = int(actualPos)/512 + 1; // blocks are numbered from 1
     if (int(actualPos) % 512 > 0)
